@@ -77,6 +77,7 @@ type Lemma struct {
 	Props    []string
 	Requires []*Clause
 	Ensures  []*Clause
+	Splits   []*Clause
 	Tier     string
 	File     string
 	Line     int
@@ -310,7 +311,7 @@ func (p *sparser) parseMul() *Expr {
 }
 
 func (p *sparser) parseUnary() *Expr {
-	for _, op := range []string{"-", "!", "^", "+", "*"} {
+	for _, op := range []string{"-", "!", "^", "+", "*", "&"} {
 		if p.accept(op) {
 			return &Expr{Kind: "un", Op: op, X: p.parseUnary()}
 		}
@@ -560,6 +561,15 @@ func (w *World) parseContractFile(pkgPath, file string) error {
 			} else {
 				return fail(l.n, "clause outside func/lemma")
 			}
+		case "split":
+			if curLemma == nil {
+				return fail(l.n, "split outside lemma")
+			}
+			cl, err := mkClause(rest, l.n)
+			if err != nil {
+				return err
+			}
+			curLemma.Splits = append(curLemma.Splits, cl)
 		case "modifies":
 			if cur == nil {
 				return fail(l.n, "modifies outside func")
@@ -910,6 +920,10 @@ func (e *Env) eval(x *Expr) *Val {
 	case "ident":
 		return e.evalIdent(x.Name)
 	case "un":
+		if x.Op == "&" {
+			a := e.evalAddr(x.X)
+			return ptrVal(types.NewPointer(a.Typ), a)
+		}
 		v := e.eval(x.X)
 		switch x.Op {
 		case "!":
@@ -923,6 +937,7 @@ func (e *Env) eval(x *Expr) *Val {
 		case "*":
 			return e.deref(v)
 		}
+	case "addr":
 	case "bin":
 		return e.evalBin(x)
 	case "cond":
@@ -1370,6 +1385,17 @@ func (e *Env) evalCall(x *Expr) *Val {
 		if fname == "" {
 			// method call on a value: recv.Method(args)
 			recv := e.eval(x.X.X)
+			if !isPtrType(recv.Typ) {
+				// pointer-receiver method on an addressable operand
+				ms := c.W.Prog.MethodSets.MethodSet(recv.Typ)
+				if ms.Lookup(e.pkg, x.X.Name) == nil && ms.Lookup(nil, x.X.Name) == nil {
+					pms := c.W.Prog.MethodSets.MethodSet(types.NewPointer(recv.Typ))
+					if pms.Lookup(e.pkg, x.X.Name) != nil || pms.Lookup(nil, x.X.Name) != nil {
+						a := e.evalAddr(x.X.X)
+						recv = ptrVal(types.NewPointer(recv.Typ), a)
+					}
+				}
+			}
 			return e.callMethod(recv, x.X.Name, x.Args)
 		}
 	default:
@@ -1649,4 +1675,65 @@ func (e *Env) callMethod(recv *Val, name string, args []*Expr) *Val {
 		specErr("method %s has no body", name)
 	}
 	return e.callGo(fn, recv, args)
+}
+
+// evalAddr evaluates an addressable expression to its location.
+func (e *Env) evalAddr(x *Expr) *Addr {
+	switch x.Kind {
+	case "paren":
+		return e.evalAddr(x.X)
+	case "un":
+		if x.Op == "*" {
+			p := e.eval(x.X)
+			if p.Ptr == nil {
+				specErr("dereference of non-pointer")
+			}
+			return p.Ptr
+		}
+	case "index":
+		base := e.eval(x.X)
+		i := e.toIdx(e.eval(x.Y))
+		if isPtrType(base.Typ) {
+			base = e.deref(base)
+		}
+		if sl, ok := base.Typ.Underlying().(*types.Slice); ok {
+			l := base.leaves()
+			et := sl.Elem()
+			return &Addr{Root: l[0], RType: et, Elem: true, EIdx: Add(l[1], i), Lo: 0, Hi: len(leafSorts(et)), Typ: et}
+		}
+		specErr("address of element of %s", base.Typ)
+	case "sel":
+		var basePtr *Addr
+		bv := func() *Val {
+			defer func() { recover() }()
+			return e.eval(x.X)
+		}()
+		if bv != nil && isPtrType(bv.Typ) && bv.Ptr != nil {
+			basePtr = bv.Ptr
+		} else {
+			basePtr = e.evalAddr(x.X)
+		}
+		stt, ok := basePtr.Typ.Underlying().(*types.Struct)
+		if !ok {
+			specErr("address of field of non-struct %s", basePtr.Typ)
+		}
+		path, _ := findField(stt, x.Name)
+		if path == nil {
+			specErr("no field %s", x.Name)
+		}
+		a := *basePtr
+		cur := stt
+		for _, fi := range path {
+			lo, hi := fieldRange(cur, fi)
+			a.Hi = a.Lo + hi
+			a.Lo = a.Lo + lo
+			a.Typ = cur.Field(fi).Type()
+			if ns, ok := a.Typ.Underlying().(*types.Struct); ok {
+				cur = ns
+			}
+		}
+		return &a
+	}
+	specErr("expression is not addressable")
+	return nil
 }
